@@ -354,8 +354,21 @@ class H:
         if self.recording:
             self.out.append((check, bool(ok), why, sig, nontrivial, extra))
 
+    def zero_rows(self):
+        """Containers of the tree that are flow widgets reporting rows() == 0 right now (e.g. an empty Pile).
+        Recorded with every "raised" failure: a zero-row child breaks the parents that stack or page over it
+        (a defect of the size contract, not of the focus rules), and the field lets a known finding say so."""
+        out = []
+        for n in self.containers():
+            try:
+                if urwid.FLOW in n.base.sizing() and n.base.rows((ROOT_SIZE[0],), False) == 0:
+                    out.append(f"{n.kind}#{n.cid}")
+            except Exception:  # noqa: BLE001, S110
+                pass
+        return out
+
     def raised(self, check, what, e, sig=None):
-        self.rec(check, False, f"{what} raised {_exc(e)}", sig or _sigmsg(e))
+        self.rec(check, False, f"{what} raised {_exc(e)}", sig or _sigmsg(e), zero_rows=self.zero_rows(), exc=type(e).__name__)
         raise Stop from e
 
     # ------------------------------------------------------------------ invariants
